@@ -7,7 +7,7 @@
    (a) machine level: each rewrite is sound for Cpu.exec on every state (or
        refuted by a witness where the compile-time evaluator is wrong). *)
 From Coq Require Import ZArith List Bool Lia Relations.
-From QV Require Import Sx Strs Fl Cell Machine Cpu Peephole.
+From QV Require Import Sx Strs Fl Cell Machine Cpu Peephole ExpShortcut.
 Import ListNotations.
 Open Scope Z_scope.
 
@@ -936,6 +936,7 @@ Proof. destruct s; reflexivity. Qed.
 
 (* INTEGER operands, every operator but "/" (whose result type is SINGLE):
    whenever the pass folds, the machine computes the same cell *)
+Local Opaque exp_tail.
 Theorem rule_push_binary_sound_partial : forall m o a b v' s,
   in_int a = true -> in_int b = true -> o <> BDiv ->
   fold2 o 1 (PInt a) (PInt b) = FVal v' ->
@@ -948,6 +949,7 @@ Proof.
   unfold fold2, lit_value in Hf; simpl in Hf.
   destruct o; try congruence; simpl in Hf; simpl;
     unfold bitwise, arith_prelude, bind, pop, push_opt; simpl;
+    rewrite ?exp_tail_same; try unfold exp_tail_ref; simpl;
     split_hyp2 Hf; inversion Hf; subst; simpl; try (destruct s; reflexivity).
 Qed.
 
@@ -965,6 +967,7 @@ Proof.
   unfold fold2, lit_value in Hf; simpl in Hf.
   destruct o; try congruence; simpl in Hf; simpl;
     unfold bitwise, arith_prelude, bind, pop, push_opt; simpl;
+    rewrite ?exp_tail_same; try unfold exp_tail_ref; simpl;
     split_hyp2 Hf; inversion Hf; subst; simpl; try (destruct s; reflexivity).
 Qed.
 
